@@ -260,6 +260,9 @@ impl<'tcx> Ex<'tcx> {
             }
             _ => {
                 v.push(("resolved", J::Null));
+                if !did.is_local() && self.follow(did) {
+                    v.push(("mir_available", J::B(tcx.is_mir_available(did))));
+                }
                 // unresolved trait method of a followed crate (byteorder): dump its provided body generically
                 if !did.is_local()
                     && self.follow(did)
@@ -457,7 +460,9 @@ impl<'tcx> Ex<'tcx> {
         let did = inst.def_id();
         let tenv = TypingEnv::post_analysis(tcx, root);
         let gbody = tcx.optimized_mir(did);
-        let is_identity = inst.args == ty::GenericArgs::identity_for_item(tcx, did);
+        let is_identity = inst.args == ty::GenericArgs::identity_for_item(tcx, did)
+            || (matches!(inst.def, InstanceKind::Item(_))
+                && tcx.def_path_str_with_args(did, ty::GenericArgs::identity_for_item(tcx, did)) == key);
         let body: mir::Body<'tcx> = match inst.try_instantiate_mir_and_normalize_erasing_regions(
             tcx,
             tenv,
